@@ -676,8 +676,9 @@ func c39Key(w *c39World, b *priorityBalancer, m *c39Model) (key, obs string) {
 
 // ------------------------------------------------------------------ runner ----
 
-func c39Runner(t *testing.T, ops []c39Op) func(hist []int) seqx.Outcome {
-	return func(hist []int) (out seqx.Outcome) {
+func c39Runner(t *testing.T, ops []c39Op, pre []int) func(hist []int) seqx.Outcome {
+	return func(h0 []int) (out seqx.Outcome) {
+		hist := append(append([]int(nil), pre...), h0...)
 		synctest.Test(t, func(t *testing.T) {
 			w := &c39World{live: map[string]*c39Child{}}
 			bal := bb{}.Build(&c39CC{w: w}, balancer.BuildOptions{})
@@ -764,15 +765,41 @@ func TestVerif_C39_Priority(t *testing.T) {
 	const P = "C39"
 	r := vk.Start(t, "c39_priority", "model_checking", P)
 	defer r.Finish()
-	r.Rule(P, "breadth-first over ALL event histories up to the depth bound; each history is applied to a fresh real priority balancer (built through its builder, real balancergroup/gracefulswitch, real init and sub-balancer-cache timers on synctest virtual time) next to a reference A56 model; run to quiescence and compared after every event. Events: config update with any ordered list over {p0,p1,p2} (add/remove/reorder/empty), child policy pN reports CONNECTING/READY/IDLE/TRANSIENT_FAILURE with a fresh tagged picker (also while deactivated), advance virtual time by the init timeout, ExitIdle, advance by the sub-balancer retention time, Close. A state = canonical private selection state of the real balancer (childInUse, priorities, per child started/state/initTimer/reportedTF, open child policies and their last report, last parent state) + reference model state; distinct states are the non-trivial cases")
+	r.Rule(P, "breadth-first over ALL event histories up to the depth bound, from two start states (scenario prio: freshly built balancer, depth 6/8; scenario prio-all-running: after cfg[p0,p1,p2]; p0:TRANSIENT_FAILURE; advance(initTimeout), i.e. p0 failed, p1 timed out, p2 in use within its timeout, depth 5/7); each history is applied to a fresh real priority balancer (built through its builder, real balancergroup/gracefulswitch, real init and sub-balancer-cache timers on synctest virtual time) next to a reference A56 model; run to quiescence and compared after every event. Events: config update with any ordered list over {p0,p1,p2} (add/remove/reorder/empty), child policy pN reports CONNECTING/READY/IDLE/TRANSIENT_FAILURE with a fresh tagged picker (also while deactivated), advance virtual time by the init timeout, ExitIdle, advance by the sub-balancer retention time, Close. A state = canonical private selection state of the real balancer (childInUse, priorities, per child started/state/initTimer/reportedTF, open child policies and their last report, last parent state) + reference model state; distinct states are the non-trivial cases")
 	r.Assume(P, "child policies are stubs that only report what the explorer tells them; GRPC_EXPERIMENTAL_ENABLE_PRIORITY_LB_CHILD_POLICY_CACHE unset (default); all events happen at quiescence (no event is injected while the balancer's serializer is busy)")
 	r.Assume(P, "state key abstracts the remaining retention time of a deactivated child policy to retained/not: inside the depth bound 10 s advances can never add up to the 15 min retention and one 15 min advance always exceeds it; init timers always have exactly the full timeout left at quiescence")
 	lists := c39AllLists([]string{"p0", "p1", "p2"})
 	ops := c39Ops(lists, true)
 	r.Set(P, "config_menu", len(lists))
-	seqx.BFS(r, []string{P}, seqx.Config{
-		Name: "prio", Ops: c39Names(ops), MaxDepth: r.Pick(6, 8), Parallel: 16,
-		Congruence: r.Thorough(), CongruenceMax: 200, MinStates: 100,
-		Run: c39Runner(t, ops),
-	})
+	idx := map[string]int{}
+	for i, o := range ops {
+		idx[o.name] = i
+	}
+	scenarios := []struct {
+		name  string
+		pre   []string
+		depth int
+	}{
+		// from the freshly built balancer
+		{"prio", nil, r.Pick(6, 12)},
+		// from a state in which all three priorities are running (p0 failed, p1
+		// timed out, p2 in use and within its timeout): deeper reorder/removal/
+		// recovery histories than the first scenario reaches
+		{"prio-all-running", []string{"cfg[p0,p1,p2]", "p0:TRANSIENT_FAILURE", "advance(initTimeout)"}, r.Pick(5, 11)},
+	}
+	for i, sc := range scenarios {
+		if !r.Mine(i) && r.ReplayFile() == "" {
+			continue
+		}
+		var pre []int
+		for _, p := range sc.pre {
+			pre = append(pre, idx[p])
+		}
+		seqx.BFS(r, []string{P}, seqx.Config{
+			Name: sc.name, Ops: c39Names(ops), MaxDepth: sc.depth, Parallel: 4,
+			Congruence: r.Thorough(), CongruenceMax: 2000, MinStates: 100,
+			Run: c39Runner(t, ops, pre),
+		})
+	}
+	r.Sample(P, map[string]any{"scenario": "prio-all-running", "preamble": scenarios[1].pre})
 }
